@@ -145,6 +145,31 @@ fn high_half_gates(r: &mut Rep) {
     }
 }
 
+/// every way of writing an EMPTY range: nothing is made present, nothing is modified (fresh and prefilled tables)
+pub fn install_empty(r: &mut Rep, a: u8, b: u8, form: u8, pre: bool) {
+    use core::ops::Bound::*;
+    let mut t = if pre { prefilled() } else { InterruptDescriptorTable::new() };
+    let before = table_bytes(&t);
+    // callers guarantee that the form denotes the empty set for (a, b)
+    match form {
+        0 => set_general_handler!(&mut t, gh_record, a..b),                          // b <= a
+        1 => set_general_handler!(&mut t, gh_record, a..=b),                         // b < a
+        2 => set_general_handler!(&mut t, gh_record, ..b),                           // b == 0
+        3 => set_general_handler!(&mut t, gh_record, (Excluded(a), Included(b))),    // b <= a
+        4 => set_general_handler!(&mut t, gh_record, (Excluded(a), Excluded(b))),    // b <= a + 1
+        5 => set_general_handler!(&mut t, gh_record, (Included(a), Excluded(b))),    // b <= a
+        6 => set_general_handler!(&mut t, gh_record, (Excluded(a), Unbounded::<u8>)),// a == 255
+        7 => set_general_handler!(&mut t, gh_record, (Unbounded::<u8>, Excluded(b))),// b == 0
+        _ => unreachable!(),
+    }
+    r.ev(true);
+    if table_bytes(&t) != before {
+        let after = table_bytes(&t);
+        let v = (0..256).find(|&v| after[16 * v..16 * v + 16] != before[16 * v..16 * v + 16]).unwrap();
+        r.viol("C13|install|empty-range-modifies-the-table", &format!("installempty {} {} {} {}", a, b, form, pre), &format!("vector {} changed", v));
+    }
+}
+
 fn install_forms(r: &mut Rep) {
     // single-index and full-table forms of the macro
     let mut t = InterruptDescriptorTable::new();
@@ -477,6 +502,7 @@ pub fn run(a: &Args) {
             "entryframe" => { crate::simcpu::init(); crate::c13iret::entry_frames(&mut r, &Args { prop: "C13".into(), tier: "thorough".into(), shard: 0, nshards: 1, replay: None, extra: vec![] }) }
             "highgate" => high_half_gates(&mut r),
             "installonce" => install_forms(&mut r),
+            "installempty" => install_empty(&mut r, t[1].parse().unwrap(), t[2].parse().unwrap(), t[3].parse().unwrap(), t[4] == "true"),
             _ => install_forms(&mut r),
         }
         r.emit();
@@ -506,6 +532,36 @@ pub fn run(a: &Args) {
                 guarded(&mut r, "C13|install|unexpected-panic", || format!("install {} {} reinstall 0", lo, hi), |r| install_case_mode(r, lo, hi, 2, 0));
                 if hi < 255 {
                     guarded(&mut r, "C13|install|unexpected-panic", || format!("install {} {} false 1", lo, hi), |r| install_case(r, lo, hi, false, 1));
+                }
+            }
+        }
+    }
+    // empty ranges in every spelling: all (a, b) with b <= a on a coarse grid plus every pair touching 0, 31/32 or 255
+    {
+        let mut n = 0usize;
+        for av in 0..=255u8 {
+            for bv in 0..=av {
+                let edge = |x: u8| matches!(x, 0 | 1 | 8 | 15 | 16 | 31 | 32 | 33 | 254 | 255);
+                if !(edge(av) || edge(bv) || av == bv || av == bv + 1 || (av % 17 == 3 && bv % 13 == 5) || a.thorough()) {
+                    continue;
+                }
+                n += 1;
+                if n % a.nshards != a.shard {
+                    continue;
+                }
+                for pre in [false, true] {
+                    let mut forms: Vec<u8> = vec![0, 3, 5];
+                    if bv < av { forms.push(1); }
+                    forms.push(4);
+                    if bv == 0 { forms.push(2); forms.push(7); }
+                    if av == 255 { forms.push(6); }
+                    for f in forms {
+                        guarded(&mut r, "C13|install|unexpected-panic", || format!("installempty {} {} {} {}", av, bv, f, pre), |r| install_empty(r, av, bv, f, pre));
+                    }
+                    // (Excluded(a), Excluded(a+1)) is empty too
+                    if av < 255 && bv == av {
+                        guarded(&mut r, "C13|install|unexpected-panic", || format!("installempty {} {} 4 {}", av, av + 1, pre), |r| install_empty(r, av, av + 1, 4, pre));
+                    }
                 }
             }
         }
